@@ -1,14 +1,13 @@
 SPECIFICATION Spec
 CONSTANTS
   Deviations <- AllDevs
-  MaxNodes = 4
+  MaxNodes = 1
   Worlds <- QuickWorlds
-  Rich = TRUE
+  Rich = FALSE
   NumIter = 2
   EarlyStop = TRUE
-  Sim = TRUE
+  Sim = FALSE
   Fine = TRUE
   Mutant = "none"
 INVARIANT PropertyHolds
-INVARIANT Emit
 CHECK_DEADLOCK FALSE
